@@ -34,6 +34,14 @@ CHECKS = {
    technique="TLA+ spec (MdLine/MdDoc totality over the FULL token alphabet) model-checked by TLC; every state replayed through every entry point x {simple, massive} in isolated worker processes (a panic in any goroutine kills the worker and is attributed to the input in flight); seeded raw-byte / mutation / over-long-line inputs, their accept/reject decision validated by TLC (TraceDoc)",
    text="TLC exhausts every document of at most 2 (thorough 3) lines of at most 2 tokens over the full 11-token alphabet (every degenerate input is a member by construction) and checks totality of the transcribed parser/generator, BlankOnlyIsEmpty and NoNilRoot; each state is run through 19 entry-point routes (output text/json/yaml/toml/dry-run, walk, mkdir, mkdir dry-run, verify; simple and massive) in worker processes with a per-call deadline: never a panic in any goroutine, never a hang, empty/blank-only input gives empty output, nothing created and nil; what tokens cannot express (invalid UTF-8, NUL, binary, 64 KiB+ lines, byte mutations of valid documents) is sampled with a seeded generator, and the decision of each sampled input is checked against the specification through its token abstraction.",
    note="Exhaustive over token documents, sampling over raw bytes. Crashes are observed at process level; hangs by a 30 s deadline per call."),
+ 'C03': dict(level=MC, ref='DESIGN.md 7/C03, 3.5',
+   technique="TLA+ history machine (Api.tla: NewRoot/Add/Op with the package counter) model-checked by TLC with invariants HistoryIndependent, MarkdownEquivalent, NoDuplicateSiblings; every history replayed on the real API and compared with the specification and with the real From-Markdown call on the canonical spelling",
+   text="TLC exhausts every order of NewRoot/Add calls (repeated Adds of existing names anywhere, several trees) followed by one operation of each kind on any node including nil and non-roots, and checks that the code-shaped result equals the declarative result of the tree's shape and the MdDoc/Render result of its canonical Markdown spelling; each history is re-executed on the real API: pointer identity of Add on an existing name, bytes/records of text, JSON/YAML/TOML and walk (callback and iterator form), each through the current function or its deprecated alias, sentinel errors via errors.Is with nothing written, and byte equality with the real From-Markdown call.",
+   note="mkdir/verify through From-Root are compared in the filesystem layer (C06-C08). Replays hold a lock around the programmatic API (its concurrent use is C13)."),
+ 'C13': dict(level=MC, ref='DESIGN.md 7/C13, 3.5',
+   technique="TLA+ history machine (Api.tla) model-checked by TLC: every interleaving of NewRoot/Add/operations up to the bound with invariant HistoryIndependent; every history replayed on the real API sequentially, then the same histories from 16 goroutines at once",
+   text="TLC exhausts every history of at most 6 (thorough 7) calls over NewRoot, Add on any live node and any From-Root operation on any live root, with the package-level counter and its reset modelled; the state is the history, so each state is re-executed on the real API and the last result compared with the declarative function of the tree's shape (which includes: repeating an operation repeats its result, other trees built or processed in between do not matter); the histories ending in an operation are then executed free-running from 16 goroutines, each owning its trees. The as-built instantiation (index equality) is kept as MC_C13_asbuilt.cfg: TLC returns the 6-call counter-example that the replay reproduced before the fix.",
+   note="Concurrent independent From-Markdown calls are exercised by all other replays (16 goroutines calling the library at once, each compared with the specification)."),
 }
 
 NOT_YET = "check not built yet (framework under construction; see DESIGN.md section 7)"
